@@ -93,13 +93,15 @@ PROPS = {
                "background (all pixels), weights (checksum of float32 bit patterns), threshold and backgroundFrames compared after every frame; spec S15"),
     "C17": proc("corr.C17", "PROC", "props/C17.v", "fault-free continuous and test sinks, motion-sink refusals; compared projection: continuous and test sinks; spec S17c && S17t"),
     "C18": {"stages": [{"harness": "WRITER", "corr": "corr.C18", "n": {"quick": 36, "thorough": 400}, "shard": 3},
-                       {"harness": "WRITERLAG", "corr": "corr.C18lag", "n": {"quick": 1, "thorough": 8}, "shard": 8}],
+                       {"harness": "WRITERLAG", "corr": "corr.C18lag", "n": {"quick": 1, "thorough": 8}, "shard": 8},
+                       {"harness": "WRITERROT", "corr": "corr.C18lag", "n": {"quick": 1, "thorough": 4}, "shard": 8, "background": True}],
             "theorems": "props/C18.v",
             "level_text": "Coq theorems on a transition system of handleConn's reader loop and the writer goroutine (every schedule) and on the CPTR byte encoder/parser - partial: real goroutine "
                           "scheduling and the channel implementation are outside the theorem; tied by running the real code with GOMAXPROCS 1..16, random read segmentations and an strace-stalled writer.",
             "rule": "connections to the real thermal-writer handleConn/writer (driver binary): frame sizes 1-32 bytes (Coq-evaluated byte-for-byte) with 0-520 frames (more than 2 x 256 in flight), "
                     "GOMAXPROCS in {1,2,4,16}, random read segmentations (1 byte .. several frames), truncated last frame; lag stage: 600-800 frames of 128 KB with every write system call of the daemon "
-                    "delayed 0.7 s by strace so that the 256-deep queue fills and drains (judged by the harness' own CPTR parser: files too large for Coq); non-trivial = at least 2 frames / backlog > 10 logged; distinct by (size, count, content seed)",
+                    "delayed 0.7 s by strace so that the 256-deep queue fills and drains (judged by the harness' own CPTR parser: files too large for Coq); rotation stage: one connection kept open for 63 s "
+                    "(240-280 small frames trickling in) so that the writer starts a second file after newFileInterval, then the camera disconnects: at least two files, all frames once, in order, flushed; non-trivial = at least 2 frames / backlog > 10 logged; distinct by (size, count, content seed)",
             "trusted_base": TB_COMMON + ["Go channels are FIFO and close() delivers buffered items first; bufio/os file writes; file names have one-second resolution (single connection per run)"]},
     "C14": {"stages": [{"harness": "HEADER", "corr": "corr.C14h", "n": {"quick": 300, "thorough": 5000}, "shard": 40},
                        {"harness": "E2E", "corr": "corr.E2E14", "n": {"quick": 6, "thorough": 150}, "shard": 1},
